@@ -73,7 +73,7 @@ fn names_in(p: &Prog) -> Vec<String> {
 
 /// Applies one mutation chosen by `src`; returns its description, or None if it did not apply.
 pub fn mutate(p: &mut Prog, src: &mut Src) -> Option<String> {
-    let kind = src.below(20);
+    let kind = src.below(24);
     // count candidate nodes of each class
     let (mut n_expr, mut n_pat, mut n_stmts, mut n_fact) = (0usize, 0usize, 0usize, 0usize);
     walk_nodes(p, &mut |n| match n {
@@ -499,6 +499,155 @@ pub fn mutate(p: &mut Prog, src: &mut Src) -> Option<String> {
                 d
             });
         }
+        20 | 21 => {
+            // a declared type that contains a result/option: one component (preferably the error type) changed
+            // components in a fixed order; the error type of a result is listed twice (double weight)
+            fn count(t: &Ty) -> usize {
+                match t {
+                    Ty::Res(a, b) => 3 + count(a) + count(b),
+                    Ty::Opt(a) => 1 + count(a),
+                    _ => 0,
+                }
+            }
+            fn apply(t: &mut Ty, n: &mut usize, new: &Ty) -> Option<String> {
+                let hit = |slot: &mut Ty, what: &str, n: &mut usize| -> Option<String> {
+                    if *n == 0 {
+                        *n = usize::MAX;
+                        if slot == new {
+                            return Some(String::new());
+                        }
+                        let d = format!("{what}: {} -> {}", print_ty(slot), print_ty(new));
+                        *slot = new.clone();
+                        return Some(d);
+                    }
+                    *n -= 1;
+                    None
+                };
+                match t {
+                    Ty::Res(a, b) => hit(b, "error type", n)
+                        .or_else(|| hit(b, "error type", n))
+                        .or_else(|| hit(a, "ok type", n))
+                        .or_else(|| apply(a, n, new))
+                        .or_else(|| apply(b, n, new)),
+                    Ty::Opt(a) => hit(a, "option payload type", n).or_else(|| apply(a, n, new)),
+                    _ => None,
+                }
+            }
+            let t = tys[vcommon::idx(pick2, tys.len())].clone();
+            let mut slots: Vec<(&mut Ty, String)> = Vec::new();
+            for f in &mut p.funcs {
+                let name = f.name.clone();
+                for (pn, pt) in &mut f.params {
+                    slots.push((pt, format!("{name} parameter {pn}")));
+                }
+                slots.push((&mut f.ret, format!("{name} return type")));
+            }
+            for s in &mut p.structs {
+                let name = s.name.clone();
+                for it in &mut s.items {
+                    if let Item::Field(n, ft) = it {
+                        slots.push((ft, format!("struct {name} field {n}")));
+                    }
+                }
+            }
+            for c in &mut p.commands {
+                let cn = c.name.clone();
+                for (pn, pt) in &mut c.fields {
+                    slots.push((pt, format!("command {cn} field {pn}")));
+                }
+                for r in &mut c.recalls {
+                    let rn = r.name.clone();
+                    for (pn, pt) in &mut r.params {
+                        slots.push((pt, format!("recall {rn} parameter {pn}")));
+                    }
+                }
+            }
+            for f in &mut p.finish_fns {
+                let name = f.name.clone();
+                for (pn, pt) in &mut f.params {
+                    slots.push((pt, format!("{name} parameter {pn}")));
+                }
+            }
+            for a in &mut p.actions {
+                let name = a.name.clone();
+                for (pn, pt) in &mut a.params {
+                    slots.push((pt, format!("{name} parameter {pn}")));
+                }
+            }
+            let total: usize = slots.iter().map(|(t, _)| count(t)).sum();
+            if total > 0 {
+                let mut n = vcommon::idx(pick, total);
+                for (slot, what) in slots {
+                    let c = count(slot);
+                    if n < c {
+                        if let Some(d) = apply(slot, &mut n, &t) {
+                            if !d.is_empty() {
+                                done = Some(format!("result/option component changed: {what}, {d}"));
+                            }
+                        }
+                        break;
+                    }
+                    n -= c;
+                }
+            }
+        }
+        22 => {
+            // a match on an option/result without default arm loses one constructor arm
+            let is_ctor_pat = |pt: &Pat| matches!(pt, Pat::Vals(vs) if vs.iter().all(|v| matches!(v, PatVal::SomeBind(_) | PatVal::OkBind(_) | PatVal::ErrBind(_) | PatVal::Lit(Expr::None))));
+            let mut total = 0;
+            let visit = |n: Node<'_>, act: Option<(usize, usize)>, total: &mut usize, done: &mut Option<String>| {
+                let mut handle = |pats: Vec<Pat>, remove: &mut dyn FnMut(usize)| {
+                    if pats.len() >= 2 && !pats.iter().any(|p| matches!(p, Pat::Default)) && pats.iter().any(is_ctor_pat) {
+                        if let Some((target, k)) = act {
+                            if *total == target && done.is_none() {
+                                let cands: Vec<usize> = (0..pats.len()).filter(|i| is_ctor_pat(&pats[*i])).collect();
+                                let i = cands[k % cands.len()];
+                                let Pat::Vals(vs) = &pats[i] else { unreachable!() };
+                                *done = Some(format!("constructor arm removed: `{}` from a match without default", print_patval(&vs[0])));
+                                remove(i);
+                            }
+                        }
+                        *total += 1;
+                    }
+                };
+                match n {
+                    Node::Expr(Expr::Match(_, arms)) => {
+                        let pats = arms.iter().map(|a| a.0.clone()).collect();
+                        handle(pats, &mut |i| {
+                            arms.remove(i);
+                        });
+                    }
+                    Node::Stmts(v) => {
+                        for s in v.iter_mut() {
+                            if let Stmt::Match(_, arms) = s {
+                                let pats = arms.iter().map(|a| a.0.clone()).collect();
+                                handle(pats, &mut |i| {
+                                    arms.remove(i);
+                                });
+                            }
+                        }
+                    }
+                    _ => {}
+                }
+            };
+            walk_nodes(p, &mut |n| visit(n, None, &mut total, &mut done));
+            if total > 0 {
+                let target = vcommon::idx(pick, total);
+                let mut i = 0;
+                walk_nodes(p, &mut |n| visit(n, Some((target, pick2 as usize)), &mut i, &mut done));
+            }
+        }
+        23 => {
+            // the payload of an Ok / Err / Some constructor replaced by an expression of (probably) another type
+            let r = odd[vcommon::idx(pick2, 8.min(odd.len()))].clone();
+            done = on_expr(p, &|e| matches!(e, Expr::Ok(_) | Expr::Err(_) | Expr::Some(_)), &mut |e| {
+                let d = format!("constructor payload replaced: `{}` now holds `{}`", print_expr(e, 0).chars().take(40).collect::<String>(), print_expr(&r, 0));
+                if let Expr::Ok(x) | Expr::Err(x) | Expr::Some(x) = e {
+                    **x = r.clone();
+                }
+                d
+            });
+        }
         _ => {
             // struct composition: add a source
             let new = names[vcommon::idx(pick2, names.len())].clone();
@@ -662,6 +811,28 @@ fn binding_in_alternation(p: &Prog) -> bool {
 }
 
 fn check(c: &Case, info: &mut CaseInfo) -> CheckResult {
+    check_prog(&c.prog, &c.inputs, &c.mutation, info)
+}
+
+fn check_join(c: &crate::c24j::JCase, info: &mut CaseInfo) -> CheckResult {
+    for t in &c.tags {
+        info.label(t.clone());
+    }
+    check_prog(&c.prog, &c.inputs, &c.mutation, info)
+}
+
+fn join_strategy(mutated: bool) -> impl Strategy<Value = crate::c24j::JCase> {
+    (prop::collection::vec(any::<u16>(), 0..400), prop::collection::vec(any::<u16>(), 8)).prop_map(move |(data, mdata)| crate::c24j::build(data, mdata, mutated))
+}
+
+/// The oracle shared by all parts: compile; if accepted, run every entry point on its inputs.
+fn check_prog(prog: &Prog, inputs: &Inputs, mutation: &str, info: &mut CaseInfo) -> CheckResult {
+    struct C<'a> {
+        prog: &'a Prog,
+        inputs: &'a Inputs,
+        mutation: &'a str,
+    }
+    let c = C { prog, inputs, mutation };
     let text = print_prog(&c.prog);
     let module = match compile_module(&text) {
         Ok(m) => m,
@@ -678,7 +849,7 @@ fn check(c: &Case, info: &mut CaseInfo) -> CheckResult {
         info.label(format!("accepted: {kind}"));
     }
     let machine = machine_of(module);
-    for r in exec_all(&c.prog, &c.inputs, &machine) {
+    for r in exec_all(c.prog, c.inputs, &machine) {
         match &r.out.end {
             RunEnd::Exit(_) => {}
             RunEnd::Error(msg, kind) => match kind {
@@ -693,11 +864,11 @@ fn check(c: &Case, info: &mut CaseInfo) -> CheckResult {
                         ErrKind::UnknownMember => "accepted program ends in an unknown struct member",
                         _ => "accepted program ends in another machine error",
                     };
-                    let sig = if matches!(k, ErrKind::StackUnderflow | ErrKind::TypeMismatch | ErrKind::UnknownMember | ErrKind::UndefinedVar) && short_recall(&c.prog) {
+                    let sig = if matches!(k, ErrKind::StackUnderflow | ErrKind::TypeMismatch | ErrKind::UnknownMember | ErrKind::UndefinedVar) && short_recall(c.prog) {
                         SIG_RECALL_ARITY
-                    } else if matches!(k, ErrKind::TypeMismatch | ErrKind::UnknownMember | ErrKind::Other) && (incomplete_struct_literal(&c.prog) || c.mutation.starts_with("struct literal")) {
+                    } else if matches!(k, ErrKind::TypeMismatch | ErrKind::UnknownMember | ErrKind::Other) && (incomplete_struct_literal(c.prog) || c.mutation.starts_with("struct literal")) {
                         SIG_INCOMPLETE_STRUCT
-                    } else if matches!(k, ErrKind::TypeMismatch | ErrKind::UndefinedVar) && binding_in_alternation(&c.prog) {
+                    } else if matches!(k, ErrKind::TypeMismatch | ErrKind::UndefinedVar) && binding_in_alternation(c.prog) {
                         SIG_BINDING_ALT
                     } else {
                         sig
@@ -723,10 +894,25 @@ pub fn run(ctx: &Ctx) -> ! {
     );
     rep.explore(
         "type_perturbed",
-        "the same programs after one mutation (sub-expression replaced by one of another type or by todo()/return, call / recall argument dropped or added, let renamed onto an existing name, struct literal field dropped/added/duplicated/source added, pattern alternation mixing bindings and other variants, declared type changed, reference/field/cast target swapped, statements swapped/dropped/duplicated, fact literal keys/values dropped, definition items removed, constructors swapped); rejected programs are counted and dropped, accepted ones executed; non-trivial = mutated program accepted by the compiler",
+        "the same programs after one mutation (sub-expression replaced by one of another type or by todo()/return, call / recall argument dropped or added, let renamed onto an existing name, struct literal field dropped/added/duplicated/source added, pattern alternation mixing bindings and other variants, declared type changed, reference/field/cast target swapped, statements swapped/dropped/duplicated, fact literal keys/values dropped, definition items removed, constructors swapped, one component of a declared result/option type changed, a constructor arm removed from an option/result match without default, a constructor payload replaced); rejected programs are counted and dropped, accepted ones executed; non-trivial = mutated program accepted by the compiler",
         || strategy(true),
         n,
         check,
+    );
+    let dom = "small programs around ONE result/option value built by joining the branches of an if / match expression (selectors: int, enum, bool, option and result parameters; 2-4 branches, nested joins and nested constructor payloads; Ok-first and Err-first orders; join types result[A, E] and option[A] with A, E from int, bool, string, enum, two structs, option[..], result[..]) and handed to its consumer through a function return type, a parameter type, a struct field type, a let or directly as a match scrutinee; the consumer matches on it (Ok/Err/Some/None arms in either order, second arm sometimes `_`), binds the payloads and uses them in operations the VM type-checks (saturating arithmetic, comparison, if/!/&&, field access, nested match, `is None`, `or`); every function is run on the full product of the selector values the join reads (k in 0..4, 3 enum variants, both bools, None/Some, Ok and Err values), so every branch of the join is executed";
+    rep.explore(
+        "result_option_joins_well_typed",
+        &format!("{dom}. Unperturbed programs; labels say how often the inputs drive the join to both constructors"),
+        || join_strategy(false),
+        n / 10,
+        check_join,
+    );
+    rep.explore(
+        "result_option_joins_perturbed",
+        &format!("{dom}. One perturbation per program: declared join type changed (error type / ok type / result->option; the consumer follows the declaration), one constructor payload replaced by a literal of another type, one constructor swapped (Ok<->Err, Some->Ok, None->Err), one bound payload consumed at another type, one constructor arm removed from a consumer match without default (only where the scrutinee's static type contains no `never`), the pattern constructor swapped in a consumer match with a default arm; rejected programs are counted and dropped; non-trivial = perturbed program accepted by the compiler"),
+        || join_strategy(true),
+        n * 2 / 5,
+        check_join,
     );
     rep.finish()
 }
